@@ -825,11 +825,18 @@ def rule_S4(F, R):
                 R.violation("S4", rb["owner_fn"], "transform-not-on-local-op", "the transform is not applied to the local operation of this iteration: %s" % desc, where(rb, e["bb"]))
                 continue
             kept = [q for q in pushes if _mentions_call(q["args"][-1], e["id"])]
+            # `list.extend(opt)` with the transform's Option keeps the operation exactly when it survived
+            ext = [q for q in evs if any(nm.endswith("Extend::extend") for nm in q["names"]) and _mentions_call(q["args"][-1], e["id"])]
             some = _cond_on_call(p, e["id"])
-            if some.get("Some") and not kept:
+            if some.get("None"):
+                if pushes or ext:
+                    R.violation("S4", rb["owner_fn"], "dropped-op-kept", "pushes although the transform dropped the local operation: %s" % desc, where(rb, e["bb"]))
+                else:
+                    R.ok("S4", "inner: " + desc[:160])
+            elif not kept and not ext:
                 R.violation("S4", rb["owner_fn"], "transformed-local-op-dropped", "a local operation that survives the transform is not kept: %s" % desc, where(rb, e["bb"]))
-            elif some.get("None") and pushes:
-                R.violation("S4", rb["owner_fn"], "dropped-op-kept", "pushes although the transform dropped the local operation: %s" % desc, where(rb, e["bb"]))
+            elif not some.get("Some") and kept and not ext:
+                R.violation("S4", rb["owner_fn"], "dropped-op-kept", "pushes the transform's result for the local operation without testing that it survived: %s" % desc, where(rb, e["bb"]))
             else:
                 R.ok("S4", "inner: " + desc[:160])
         else:
@@ -838,7 +845,7 @@ def rule_S4(F, R):
                 R.violation("S4", rb["owner_fn"], "untouched-local-op-dropped", "a local operation that is not transformed (server operation already consumed) is not kept: %s" % desc, where(rb, p.blocks[-1]))
             else:
                 R.ok("S4", "inner: " + desc[:160])
-    R.floor("S4", "inner-loop iteration paths", n, 3)
+    R.floor("S4", "inner-loop iteration paths", n, 2)
     # --- outer tail: after the inner loop
     exits = sorted({j for i in inner[1] for j in c.succs(i) if j not in inner[1]})
     try:
@@ -869,7 +876,9 @@ def rule_S4(F, R):
         bad = None
         for d in fl.defs.get(nl, ()):
             if d[0] == "mutcall":
-                if not any(n.endswith("Vec::<T, A>::push") for n in call_names(d[4])):
+                # push, or extend with an Option (appends at most one element at the end)
+                is_opt_extend = any(n.endswith("Extend::extend") for n in call_names(d[4])) and len(d[4]["args"]) == 2 and op_place(d[4]["args"][1]) is not None and fl.local_ty(op_place(d[4]["args"][1])["l"]).startswith("std::option::Option<")
+                if not any(n.endswith("Vec::<T, A>::push") for n in call_names(d[4])) and not is_opt_extend:
                     bad = "is also modified by %s" % call_names(d[4])[0]
                 continue
             if d[0] == "call" and not d[3] and any(re.search(r"Vec::<T>::(new|with_capacity)$|Vec::<T, A>::(new_in|with_capacity_in)$", n) for n in call_names(d[4])):
@@ -883,7 +892,7 @@ def rule_S4(F, R):
     if hdr_calls:
         i, t = hdr_calls[-1]
         sl = fl.slice_operand(t["args"][0])
-        badn = sorted({n for n in sl.call_names() if re.search(r"::(partition|filter|filter_map|rev|skip|take|step_by|sort\w*|reverse|retain|dedup\w*|skip_while|take_while)$", n)})
+        badn = sorted({n for n in sl.call_names() if re.search(r"Iterator::(partition|filter|filter_map|rev|skip|take|step_by|skip_while|take_while)$|::(sort\w*|reverse|retain|dedup\w*)$", n)})
         owner_b2 = F.bodies.get(rb.get("owner_fn") or "", rb)
         from_param = any("Vec<server::op::SyncOp>" in fl.local_ty(l) and (1 <= l <= rb["argc"] or (rb["kind"] == "Closure")) for l in sl.locals) or "local_ops" in sl.upvars()
         if badn:
